@@ -155,6 +155,23 @@ def server_reset(chk, rule: str):
     lazy = [n for n in own_nodes(sd.node) if isinstance(n, ast.If) and "_buffer" in src(n.test) and "None" in src(n.test)]
     chk.check(not lazy, rule, f"{SV}:SdoServer.segmented_download | no lazily created buffer", sd.loc(),
               f"`if {src(lazy[0].test)}` creates the buffer only when absent: data left by an unfinished transfer is prepended to the next download" if lazy else "")
+    # whatever a segment handler advances (a position, a count, a remembered size) belongs to one transfer: the initiate handler of
+    # that direction sets it, or a transfer that was abandoned half-way leaves its progress to the next one
+    from .common import is_observational_stmt
+    for seg, ini in (("segmented_upload", "init_upload"), ("segmented_download", "init_download")):
+        fseg = repo.func(SV, f"SdoServer.{seg}", f"{chk.prop}.{rule}")
+        fini = repo.func(SV, f"SdoServer.{ini}", f"{chk.prop}.{rule}")
+        advanced = {}
+        for st in own_nodes(fseg.node):
+            if isinstance(st, (ast.Assign, ast.AugAssign)) and not is_observational_stmt(repo, st):
+                for t in (st.targets if isinstance(st, ast.Assign) else [st.target]):
+                    if isinstance(t, ast.Attribute) and dotted(t.value) == "self":
+                        advanced.setdefault(t.attr, st)
+        set_in_init = {t.attr for st in own_nodes(fini.node) if isinstance(st, (ast.Assign, ast.AugAssign)) for t in (st.targets if isinstance(st, ast.Assign) else [st.target])
+                       if isinstance(t, ast.Attribute) and dotted(t.value) == "self"}
+        for attr, st in sorted(advanced.items()):
+            chk.check(attr in set_in_init, rule, f"{SV}:SdoServer.{ini} | per-transfer state self.{attr} is set when a transfer starts", fseg.loc(st),
+                      f"{seg}() advances self.{attr} (`{src(st)[:50]}`) but {ini}() never sets it: after a transfer that was abandoned half-way the next one starts from the stale value")
 
 
 def store_exact(chk, rule: str):
@@ -384,6 +401,7 @@ def isolation(chk, rule: str, rels=None):
     chk.ok(rule, f"{'package' if rels is None else ', '.join(sorted(rels))} | no mutable default argument kept or mutated", "canopen/", f"scanned {n_def} functions")
     logging_inert(chk, rule, rels)
     none_is_not_zero(chk, rule, rels)
+    lock_discipline(chk, rule, rels)
     tdef = ast.parse("class S:\n    def __init__(self, callbacks=[]):\n        self.callbacks = callbacks\n").body[0].body[0]
     chk.fixture(rule, "mutable default stored on the instance", _mutable_default_escape(tdef) is not None)
     t = ast.parse("class S:\n    _buffer = bytearray()\n    def f(self, d):\n        b = self._buffer\n        b[:] = d\n")
@@ -834,13 +852,14 @@ def pdo_collection_lookup(chk, rule: str):
     f = repo.func(PB, "PdoBase.__getitem__", f"{chk.prop}.{rule}")
     chk.saw(f)
     key = f.params[1] if len(f.params) > 1 else "key"
-    subs = [n for n in ast.walk(f.node) if isinstance(n, ast.Subscript) and isinstance(n.ctx, ast.Load) and isinstance(n.value, ast.Name) and src(n.slice) == key]
-    chk.floor(rule, len(subs), 1, "per-map lookups in PdoBase.__getitem__")
+    subs = [n for n in ast.walk(f.node) if isinstance(n, ast.Subscript) and isinstance(n.ctx, ast.Load) and src(n.slice) == key and src(n.value) != "self.map"]
+    chk.floor(rule, len([n for n in subs if isinstance(n.value, ast.Name)]), 1, "per-map lookups in PdoBase.__getitem__")
     for n in subs:
-        loops = [lp for lp in enclosing(f.node, n, (ast.For,)) if isinstance(lp.target, ast.Name) and lp.target.id == n.value.id]
+        loops = [lp for lp in enclosing(f.node, n, (ast.For,)) if isinstance(lp.target, ast.Name) and isinstance(n.value, ast.Name) and lp.target.id == n.value.id]
         ok = any(src(lp.iter) in ("self.map.values()", "list(self.map.values())", "tuple(self.map.values())") for lp in loops)
         chk.check(ok, rule, f"{PB}:PdoBase.__getitem__ | `{src(n)}` looks into a map of the current search", f.loc(n),
-                  f"`{n.value.id}` is not bound by a loop over self.map.values() here: the answer comes from somewhere else than the maps in their current order and configuration")
+                  f"`{src(n.value)}` is not bound by a loop over self.map.values() here: the answer comes from somewhere else than the maps in their current order and configuration "
+                  f"(a remembered answer is stale as soon as a map is re-configured through another view of the same maps)")
 
 
 _ARITH = (ast.Add, ast.Sub, ast.Mult, ast.Div, ast.FloorDiv, ast.Mod, ast.LShift, ast.RShift, ast.BitAnd, ast.BitOr, ast.BitXor, ast.Pow)
@@ -947,3 +966,43 @@ def none_is_not_zero(chk, rule: str, rels=None):
                             f"(numeric or byte-string use elsewhere in the {'class' if f.cls is not None else 'function'}): the legal zero is handled as if nothing had been given")
                     break
     chk.ok(rule, f"{'package' if rels is None else ', '.join(sorted(rels))} | no new truth-value test of a None-able number", "canopen/", f"scanned {n_fn} functions")
+
+
+def lock_discipline(chk, rule: str, rels=None):
+    """A lock that is not re-entrant (`threading.Lock()`) is not held while user callbacks run: a callback that calls back into the
+    object (a write callback that writes another entry, a receive callback that reads a variable) would block on the lock its own
+    thread holds -- the operation never completes and the receive thread is stuck for every later frame.  Looked for in the source as
+    written (the canonical form flattens fresh locks)."""
+    repo, folder = ctx(chk)
+    plain = set()
+    for m in repo.modules.values():
+        try:
+            raw = ast.parse(m.src)
+        except SyntaxError:
+            continue
+        for n in ast.walk(raw):
+            if isinstance(n, ast.Assign) and isinstance(n.value, ast.Call) and (dotted(n.value.func) or "") in ("threading.Lock", "Lock") and not n.value.args:
+                for t in n.targets:
+                    if isinstance(t, ast.Attribute):
+                        plain.add(t.attr)
+    n_with = 0
+    for m in repo.modules.values():
+        if rels is not None and m.rel not in rels:
+            continue
+        try:
+            raw = ast.parse(m.src)
+        except SyntaxError:
+            continue
+        for w in [n for n in ast.walk(raw) if isinstance(n, ast.With)]:
+            held = [it.context_expr.attr for it in w.items if isinstance(it.context_expr, ast.Attribute) and it.context_expr.attr in plain]
+            if not held:
+                continue
+            n_with += 1
+            for lp in [x for b in w.body for x in ast.walk(b) if isinstance(x, ast.For) and isinstance(x.target, ast.Name)]:
+                it_src = src(lp.iter)
+                if "callback" in it_src.lower() and any(isinstance(c, ast.Call) and isinstance(c.func, ast.Name) and c.func.id == lp.target.id for c in ast.walk(lp)):
+                    chk.bad(rule, f"{m.rel}:{w.lineno} | callbacks do not run under the non-re-entrant lock {held[0]}", f"{m.rel}:{lp.lineno}",
+                            f"`for {lp.target.id} in {it_src}` calls user callbacks while `{held[0]}` (a plain threading.Lock) is held: a callback that comes back into this object "
+                            f"on the same thread blocks for ever, the request is never answered")
+                    break
+    chk.ok(rule, f"{'package' if rels is None else ', '.join(sorted(rels))} | no callback under a plain Lock", "canopen/", f"{n_with} with-blocks on plain locks, {len(plain)} plain locks")
